@@ -208,10 +208,11 @@ def stepL2R64 (st : St) (cmd : List String) (got : String) : Option (St × Verdi
             if wfOp then
               let m := Rep64.sflip Ops32.viaSet rx lo hi
               let (kLo, kHi) := if lo < hi then (lo / 4294967296, hi / 4294967296) else (1, 0)
+              if !rz.wf then some "well-formed result of static Flip on a well-formed operand" else
               match sameStructure kLo kHi m rz with
               | some e => some ("L2 bucket structure of static Flip: " ++ e)
               | none =>
-                if !rz.wf then some "well-formed result of static Flip on a well-formed operand"
+                if false then none
                 else
                   -- the touched buckets literally: the 32-bit layer instantiated with the exact `RepMut` models (`Ops32.exact`)
                   let lit := renderRep64 (Rep64.sflip { Ops32.exact with flip := Rep.flipStatic } rx lo hi)
@@ -248,10 +249,11 @@ def stepL2R64 (st : St) (cmd : List String) (got : String) : Option (St × Verdi
               if rx.wf then
                 let m := f2 Ops32.viaSet rx lo hi
                 let (kLo, kHi) := if lo < hi then (lo / 4294967296, kHi0) else (1, 0)
+                if !rz.wf then some ("well-formed result of in-place " ++ op ++ " on a well-formed operand") else
                 match sameStructure kLo kHi m rz with
                 | some e => some ("L2 bucket structure of in-place " ++ op ++ ": " ++ e)
                 | none =>
-                  if !rz.wf then some ("well-formed result of in-place " ++ op ++ " on a well-formed operand")
+                  if false then none
                   else
                     let lit := renderRep64 (f2 Ops32.exact rx lo hi)
                     failIf (lit != rzS) ("L2 exact (Ops32.exact) in-place " ++ op ++ " = " ++ lit.take 400)
@@ -288,6 +290,7 @@ def stepL2R64 (st : St) (cmd : List String) (got : String) : Option (St × Verdi
                 let m : Rep64 := if x == y && op == "xor" then {} else f2 rx ry
                 let touched : Nat → Bool := fun k =>
                   abstractEq && rx.buckets.any (·.high == k) && ry.buckets.any (·.high == k)
+                if !rx2.wf then some ("well-formed result of in-place " ++ op ++ " on well-formed operands") else
                 match sameStructureP touched m rx2 with
                 | some e => some ("L2 bucket structure of in-place " ++ op ++ ": " ++ e)
                 | none =>
